@@ -25,11 +25,20 @@ git -C $WT checkout -q -- . ; git -C $WT clean -fdq; find $WT -name "verif_*.go"
 echo "seed $ID-$K: demo_on_clean=$clean_rc build=$build_rc suite=$suite_rc demo_on_patched=$patched_rc (want 0 0 0 nonzero)"
 if [ $clean_rc -ne 0 ] || [ $build_rc -ne 0 ] || [ $suite_rc -ne 0 ] || [ $patched_rc -eq 0 ]; then echo "NOT CONFIRMED"; tail -5 /tmp/seed_clean.log /tmp/seed_suite.log /tmp/seed_patched.log; exit 1; fi
 mkdir -p $OUT; cp $SD/patch.diff $OUT/patch.diff; cp $SD/demo_test.go $OUT/demo_test.go
-# run our check against the patched /repo
-if [ -n "$(git -C /repo status --porcelain)" ]; then echo "/repo has uncommitted changes: commit them first"; exit 2; fi
-git -C /repo apply $SD/patch.diff || { echo "patch does not apply to /repo"; exit 2; }
-res=$(cd /verif && VERIF_EVIDENCE_DIR=/tmp/seed_ev timeout 1500 ./check $ID quick 2>&1); check_rc=$?
-git -C /repo checkout -q -- .
+# run our check against /repo's committed state with the patch applied.  By default this uses a scratch copy
+# (VERIF_REPO), so that work in progress in /repo is not disturbed; with INPLACE=1 the patch is applied to /repo
+# itself (git apply ... ; git checkout -- .), which requires a clean /repo.
+if [ "${INPLACE:-0}" = 1 ]; then
+  if [ -n "$(git -C /repo status --porcelain)" ]; then echo "/repo has uncommitted changes: commit them first"; exit 2; fi
+  git -C /repo apply $SD/patch.diff || { echo "patch does not apply to /repo"; exit 2; }
+  res=$(cd /verif && VERIF_EVIDENCE_DIR=/tmp/seed_ev timeout 1500 ./check $ID quick 2>&1); check_rc=$?
+  git -C /repo checkout -q -- .
+else
+  SC=$(mktemp -d /tmp/seedrepo-XXXXXX); git -C /repo archive HEAD | tar -x -C $SC
+  (cd $SC && git apply --unsafe-paths $SD/patch.diff 2>/dev/null || patch -p1 -s < $SD/patch.diff) || { echo "patch does not apply to /repo HEAD"; rm -rf $SC; exit 2; }
+  res=$(cd /verif && VERIF_REPO=$SC VERIF_EVIDENCE_DIR=$SC/.ev VERIF_OUT_DIR=$SC/.out VERIF_REPLAY_DIR=$SC/.replay timeout 1500 ./check $ID quick 2>&1); check_rc=$?
+  rm -rf $SC
+fi
 nviol=$(echo "$res" | grep -c '^VIOLATION')
 first=$(echo "$res" | grep -m3 '^VIOLATION' | sed 's/replay=[^ ]* //')
 python3 - "$SD/meta.json" "$OUT/meta.json" "$ID" "$check_rc" "$nviol" "$first" <<'PY'
@@ -38,7 +47,7 @@ src,dst,pid,rc,nv,first=sys.argv[1:7]
 try: m=json.load(open(src))
 except Exception: m={}
 m.update({"property":pid,"confirmed_by":"tools/confirm_seed.sh (scratch worktree): demo passes on clean tree, build ok, full suite passes with patch, demo fails with patch",
- "ran":["go build ./...","go test -vet=off -count=1 ./... (patched)","go test -run 'Seed|Demo' (clean, patched)","git -C /repo apply patch.diff; ./check %s quick; git -C /repo checkout -- ."%pid],
+ "ran":["go build ./...","go test -vet=off -count=1 ./... (patched)","go test -run 'Seed|Demo' (clean, patched)","./check %s quick on /repo HEAD + patch.diff (scratch copy via VERIF_REPO, or in place with INPLACE=1)"%pid],
  "check_exit":int(rc),"check_violations":int(nv),"check_first_violations":first.split('\n') if first else [],"detected":int(rc)==1})
 json.dump(m,open(dst,'w'),indent=1)
 PY
